@@ -54,3 +54,47 @@ def codec_rules(chk, repo, rule, keys, text):
                f"list-held data, nested list/tuple/dict attributes, non-ASCII strings, 2**63-1): {', '.join(keys)} hold", sample={"hierarchies": len(rs), "obligations": list(keys), "discharged": n_ok})
         for _ in range(len(rs) - 1):
             chk.ok(rule, WHERE, "model hierarchy")
+
+
+def missing_stamps(chk, repo, rule):
+    """the line time stamps the reader can produce versus what the index codec can store: the two time adapters are evaluated on an
+    unset (all-zero) stamp.  When one of them decodes it to a missing value (None -> NaT) instead of raising, the reader can produce a
+    datetime column whose first element is missing, and the round trip is evaluated on such a hierarchy: a codec that stores a column
+    as offsets from its first element reads back NaT for every line"""
+    from collections import OrderedDict
+    from ..shapes import Const, DictS, Fn, Interp, NonTermination, Obj, ShapeError, Top, _Raise
+    from .adapter_eval import adapter_instance
+    chk.rule(rule, "a time stamp the reader may decode to 'missing' survives the index round trip (or no adapter produces one)", 1)
+    dt = repo.module("ceos_alos2.datatypes")
+    producers = []
+    for cls, raw in (("DatetimeYdms", {"year": 0, "day_of_year": 0, "milliseconds": 0}), ("DatetimeYdus", 0)):
+        r = repo.resolve_module_name(dt, cls)
+        if r.kind != "class":
+            raise AnalysisError(f"anchor vanished: datatypes.{cls}")
+        I = Interp(repo)
+        obj = Obj(cls, OrderedDict(reference_date=Const(None)), klass=(r.mod, r.node))
+        arg = Const(raw) if not isinstance(raw, dict) else Obj("Container", {k: Const(v) for k, v in raw.items()})
+        if isinstance(raw, dict):
+            arg.fields["__getitem__"] = Fn("py", impl=lambda I_, a_, k_, _o=arg: _o.fields[a_[0].v], name="__getitem__")
+        try:
+            out = I.call(I.getattr(obj, "_decode"), [arg, Obj("Context", OrderedDict()), Const("path")], {})
+        except _Raise:
+            continue  # an unset stamp is rejected: no missing value enters the tree through this adapter
+        except (ShapeError, NonTermination, RecursionError) as e:
+            raise AnalysisError(f"{dt.relpath}:{cls}._decode cannot be evaluated on an unset (all-zero) stamp: {str(e)[:120]}")
+        if isinstance(out, Const) and out.v is None:
+            producers.append(cls)
+        elif isinstance(out, (Top,)):
+            raise AnalysisError(f"{dt.relpath}:{cls}._decode on an unset stamp gives {out!r:.60}; not decided")
+    if not producers:
+        chk.ok(rule, f"{dt.relpath}", "the time adapters reject an unset (all-zero) stamp: no missing time value enters the tree")
+        return
+    R = run_roundtrip(repo, "HH", 7, False, nat_first=True)
+    res = judge(R, "HH", 7)
+    und = [bad for k, ok, good, bad in res if ok is None]
+    if und:
+        raise AnalysisError(f"{WHERE}: the round trip with a missing first time stamp cannot be evaluated: {str(und[0])[:160]}")
+    bad = [b for k, ok, good, b in res if ok is False and "time_gap" in str(b)]
+    chk.require(not bad, rule, WHERE, "a datetime column whose first element is missing (NaT) survives decode(encode(g))",
+                f"{' and '.join(producers)} decode an unset (all-zero) stamp to a missing value, so a time column can start with NaT - and the index codec does not keep such a column: {str(bad[0])[:300] if bad else ''}",
+                key="codec:missing-first-stamp")
